@@ -44,6 +44,15 @@ def draw(rng, trivial=False, special=False):
     return dict(tth=tth, eta=eta, tilt=tilt, L=L, py=py, pz=pz, yc=yc, zc=zc, t=t, lam=lam)
 
 
+def sincos_eta(eta):
+    """(sin eta, cos eta) with the EXACT values 0, 1, -1 at the multiples of pi/2: a g-vector lying in a coordinate plane has a
+    component that is exactly zero (hkl along an axis of an axis-aligned crystal), not -1.2e-16"""
+    for k, sc in enumerate(((0.0, 1.0), (1.0, 0.0), (0.0, -1.0), (-1.0, 0.0))):
+        if eta == k * 0.5 * math.pi:
+            return sc
+    return math.sin(eta), math.cos(eta)
+
+
 def correspondence(ctx):
     from xfab import detector, tools
     cases = []
@@ -52,7 +61,8 @@ def correspondence(ctx):
         R = tools.detect_tilt(*d['tilt'])
         Rf = [float(x) for x in R.ravel()]
         k = 2 * math.pi / d['lam']
-        Gt = [k * (math.cos(d['tth']) - 1), -k * math.sin(d['tth']) * math.sin(d['eta']), k * math.sin(d['tth']) * math.cos(d['eta'])]
+        se, ce = sincos_eta(d['eta'])
+        Gt = [k * (math.cos(d['tth']) - 1), -k * math.sin(d['tth']) * se + 0.0, k * math.sin(d['tth']) * ce]
         tail = [d['L'], d['py'], d['pz'], d['yc'], d['zc']] + Rf + d['t']
         cases.append({'fn': 'Tools.detect_tilt', 'args': d['tilt'], 'py': (lambda d=d: tools.detect_tilt(*d['tilt']))})
         cases.append({'fn': 'Detector.det_coor', 'args': Gt + [math.cos(d['tth']), d['lam']] + tail,
@@ -77,7 +87,8 @@ def check_one(d):
     out = []
     R = tools.detect_tilt(*d['tilt'])
     k = 2 * math.pi / d['lam']
-    v = np.array([math.cos(d['tth']), -math.sin(d['tth']) * math.sin(d['eta']), math.sin(d['tth']) * math.cos(d['eta'])])
+    se, ce = sincos_eta(d['eta'])
+    v = np.array([math.cos(d['tth']), -math.sin(d['tth']) * se + 0.0, math.sin(d['tth']) * ce])
     Gt = k * (v - np.array([1.0, 0, 0]))
     p1 = detector.det_coor(Gt, math.cos(d['tth']), d['lam'], d['L'], d['py'], d['pz'], d['yc'], d['zc'], R, *d['t'])
     p2 = detector.det_coor2(d['tth'], d['eta'], d['L'], d['py'], d['pz'], d['yc'], d['zc'], R, *d['t'])
